@@ -10,11 +10,14 @@ written by the frozen vendored writer) and driven through Minidump::read, get_st
 accessor and every print, in worker processes with a bounding allocator and a watchdog; the model's predicted
 stream result is compared (drift).  V - the same monitor over every 32-bit word of header, directory and streams
 replaced by each boundary value (and 16/64-bit variants), truncation at every offset (with the directory
-re-attached), hostile contents of the eight text streams, and seeded random files."""
+re-attached), hostile contents of the eight text streams, and seeded random files; the command-line tool's own raw-dump printer
+(minidump-stackwalk --dump [--brief], main.rs) is run as a process on every template with every directory entry's size and
+location replaced by boundary values (empty, truncated and misplaced streams of every type): exit status 0 or 1 only."""
 import json
 import os
 import re
 from . import core
+from .c20 import build_cli
 
 GUARDS = ["count_in_bound", "descriptor_size", "chain_bound", "info_type", "param_bound", "record_cap"]
 
@@ -33,7 +36,9 @@ def run(ctx):
             raise core.ToolFailure("vacuity guard: DumpReader.tla without guard %s violates nothing" % g)
         mutants[g] = mu.violated
     env = {"VERIF_TIER": tier, "VERIF_SEED": str(ctx.seed)}
-    gens = [("model", ["gen", "model", mc.out_path]), ("sweep", ["gen", "sweep"]), ("trunc", ["gen", "trunc"]), ("text", ["gen", "text"]), ("rand", ["gen", "rand"])]
+    binary = build_cli(ctx)
+    gens = [("model", ["gen", "model", mc.out_path]), ("sweep", ["gen", "sweep"]), ("trunc", ["gen", "trunc"]), ("text", ["gen", "text"]), ("rand", ["gen", "rand"]),
+            ("clidump", ["gen", "clidump"])]
     records = []      # aggregated records for the monitor
     detail = {}       # monitor record index -> detail for the replay file
     counts = {}
@@ -43,7 +48,11 @@ def run(ctx):
         cases = os.path.join(ctx.work, "cases_%s.ndjson" % name)
         out = os.path.join(ctx.work, "results_%s.ndjson" % name)
         ctx.harness("replay_reader", args + [cases], out_name="gen_%s.log" % name, timeout=3000, env=env)
-        ctx.harness("replay_reader", ["run", cases, out, 14], out_name="run_%s.log" % name, timeout=7200, env=env)
+        if name == "clidump":
+            # the command-line tool's own raw-dump printer (main.rs), run as a process per case
+            ctx.harness("replay_reader", ["cli", cases, out, binary, os.path.join(ctx.work, "cli"), 12], out_name="run_%s.log" % name, timeout=7200, env=env)
+        else:
+            ctx.harness("replay_reader", ["run", cases, out, 14], out_name="run_%s.log" % name, timeout=7200, env=env)
         with open(cases) as f:
             case_lines = f.readlines()
         groups = {}
@@ -102,7 +111,7 @@ def run(ctx):
                 d = detail[int(m.group(1))]
                 ctx.drift.append({"what": "DumpReader.tla predicts %s for the stream, the reader returned %s" % (m.group(2), m.group(3)), "case": d["case"].get("meta")})
     for need in ("model:dir", "model:counted", "model:exlist", "model:handle", "model:mem64", "model:exception", "model:maccrash", "model:string",
-                 "sweep:ok", "trunc:ok", "trunc:err", "text:ok", "rand:ok", "rand:err"):
+                 "sweep:ok", "trunc:ok", "trunc:err", "text:ok", "rand:ok", "rand:err", "clidump:ok"):
         if counts.get(need, 0) == 0:
             raise core.ToolFailure("vacuous: no executed case of class %s" % need)
     cov = {
@@ -113,7 +122,8 @@ def run(ctx):
                 "in both byte orders; sweep: every 32-bit word of header, directory and the first bytes of every stream (whole file at every alignment for some "
                 "templates) x {0,1,L-1,L,L+1,2^31,2^32-1} plus 16/64-bit variants over 20 templates; trunc: cut at every 3rd (thorough: every) offset with the "
                 "directory re-attached; text: a grammar of hostile key/separator/value/terminator lines for 8 text streams; rand: seeded random files with and "
-                "without a plausible header; non-trivial = distinct case",
+                "without a plausible header; clidump: the built minidump-stackwalk --dump / --dump --brief on every template x directory entry x {size, rva} x boundary values; "
+                "non-trivial = distinct case",
         "tlc": {"DumpReader": mc.as_dict(), "mutants_violate": mutants, "Trace_DumpReader": {k: v for k, v in tv.items() if k != "out"}},
         "outcome_counts": counts, "monitor_records": len(records),
     }
